@@ -355,6 +355,14 @@ def run(case, env):
     wt, models, idmap = H.build_wt(spec, os.path.join(root, "wt"), "2a")
     repo = wt.branch.repository
     log = record_updates(repo)
+    if case.get("verifiers"):
+        # what a roundtripping mapping records with every commit (the default
+        # mapping is lossy and records none)
+        import hashlib
+        log = [(rev, [(obj, ({"testament3-sha1": hashlib.sha1(
+            rev.revision_id).hexdigest().encode("ascii")}
+            if _parts(obj)[0] == "commit" else key), path)
+            for obj, key, path in entries]) for rev, entries in log]
     by_rev = {rev.revision_id: (rev, entries) for rev, entries in log}
     check(len(by_rev) == len(spec["revs"]),
           "C38/harness-update-log-incomplete", [sorted(by_rev)])
@@ -473,6 +481,8 @@ def _replay(case, spec, idmap, by_rev, universe, backends, full_model, tdb):
     if any(len(v) >= 2 and all(t == "tree" for t, d in v)
            for v in full_model.by_sha.values()):
         lab += "+shared-tree"
+    if case.get("verifiers"):
+        lab += "+verifiers"
     if not tdb:
         lab += "+tdb-skipped"
     return ok(lab)
@@ -494,7 +504,7 @@ def gen_case(draw):
             "repack": draw(st.sampled_from([False] * 11 + [True])),
             "probe": draw(st.sampled_from([True, False])),
         })
-    return {"spec": spec, "groups": groups,
+    return {"verifiers": draw(st.booleans()), "spec": spec, "groups": groups,
             "picks": draw(st.lists(st.integers(0, 5), min_size=1,
                                    max_size=9))}
 
